@@ -18,7 +18,7 @@ from . import common as K
 
 ID = "C15"
 LEVEL = "exploration"
-RULE = ("definitions with >=3 symbols per role and >=2 sensors x >=2 readings (every third: 9-12 sparsely coupled states), both CSE settings; per definition V "
+RULE = ("definitions with >=3 symbols per role and >=2 sensors x >=2 readings (every third: 9-12 sparsely coupled states; every third: two states that differ only by case), both CSE settings; per definition V "
         "child processes with PYTHONHASHSEED in {0,1,2,3,4,12345,random,...}, independently shuffled declaration "
         "order of every list/dict and container type in {set,list,tuple,frozenset}; digests of header_from_ast / "
         "source_from_ast (EKF and Model generators), files written by cpp.compile_ekf, Model.arglist, "
@@ -50,8 +50,25 @@ def defn_for(seed, i):
             d["model"][names[0]] = ["add", d["model"][names[0]], ["mul", ["s", d["dt"]], ["s", d["control"][0]]]]
         d["sparse_ring"] = True
         return d
-    return gen.program(rng, n_state=(3, 5), n_control=(3, 4), n_calib=(3, 4), n_sensor=(2, 3), n_reading=(2, 4),
-                       depth=2, n_shared=(1, 2), containers=False)
+    d = gen.program(rng, n_state=(3, 5), n_control=(3, 4), n_calib=(3, 4), n_sensor=(2, 3), n_reading=(2, 4),
+                    depth=2, n_shared=(1, 2), containers=False)
+    if i % 3 == 1:
+        # two states whose names differ only by case (v / V): an order that ties on them must not depend on the
+        # declaration order or the hash seed
+        from .c13 import apply_renaming
+
+        used = set(d["state"]) | set(d["control"]) | set(d["calibration"]) | {d["dt"]} | set(d["sensors"])
+        for rd in d["sensors"].values():
+            used |= set(rd)
+        s0, s1 = d["state"][0], d["state"][1]
+        sib = next((c for c in (s0.swapcase(), s0.upper(), s0.capitalize(), s0.lower())
+                    if c != s0 and c not in used and c.lower() == s0.lower()), None)
+        if sib is not None:
+            rho = {n: n for n in d["state"] + d["control"] + d["calibration"]}
+            rho[s1] = sib
+            d = apply_renaming(d, rho, {sn: sn for sn in d["sensors"]}, {sn: {r: r for r in rd} for sn, rd in d["sensors"].items()})
+            d["case_sibling_states"] = True
+    return d
 
 
 def plan(tier, seed):
